@@ -16,7 +16,7 @@ namespace Sing
 /-! ## Types -/
 
 inductive Dim
-  | const (n : Nat)
+  | const (n : Int)
   | sym (s : String)
   | unk
   deriving DecidableEq, Repr, Inhabited
